@@ -98,6 +98,13 @@ func (this *Hnsw) Insert(id uuid.UUID, value math.Vector, metadata Metadata, ver
 	verifYield("insert.afterStore")
 
 	entrypoint := (*hnswVertex)(atomic.LoadPointer(&this.entrypoint))
+	for entrypoint == nil {
+		// The index was emptied by concurrent removals after the check above.
+		if atomic.CompareAndSwapPointer(&this.entrypoint, nil, unsafe.Pointer(vertex)) {
+			return nil
+		}
+		entrypoint = (*hnswVertex)(atomic.LoadPointer(&this.entrypoint))
+	}
 	minDistance := this.space.Distance(vertex.vector, entrypoint.vector)
 	for l := entrypoint.level; l > vertex.level; l-- {
 		entrypoint, minDistance = this.greedyClosestNeighbor(vertex.vector, entrypoint, minDistance, l)
